@@ -648,6 +648,12 @@ def check_thick_omitted(rep, sc, rng, idx, threads):
     op = OPS[idx % len(OPS)]
     origin = [sc["origin"][d] * f for d in range(3)]
     default_nz = idx % 2 == 1          # no depth resolution given: as many samples as make the step closest to the pixel size
+    if idx % 5 == 4:
+        # depth counts for which the floating-point quotient dz / (dz / nz) is not exactly nz: the count of samples is the
+        # one requested, not one recomputed from the rounded step
+        hostile = [n for n in range(2, 48) if dz / (dz / n) != n]
+        if hostile:
+            nz, default_nz = hostile[(idx // 5) % len(hostile)], False
     kw = {"origin": osyris.Vector(*origin, unit="cm"), "resolution": {"x": nx, "y": nx} if default_nz else {"x": nx, "y": nx, "z": nz}, "direction": osyris.Vector(*nrm),
           "dz": dz * osyris.units("cm"), "operation": op}
     numba.set_num_threads(threads[idx % len(threads)])
